@@ -93,14 +93,14 @@ impl HL {
     fn unsafe_stmts(&mut self) { unsafe { self.cap = 1; self.cap = 2; } }
     fn unsafe_expr(&mut self) { unsafe { self.cap = 1 } }
     fn with_unknown(&self, s: Other) -> bool { true }
-    fn with_call(&mut self) { self.entries.clear(); }
+    fn with_call(&mut self) { self.entries.reverse(); }
     fn with_pop(&mut self) -> Option<Ptr> { self.entries.pop() }
     fn after_return(&mut self) -> bool { return true; self.cap = 1; false }
     fn ro_update(&self) -> bool { self.cap = 1; true }
     fn by_value(self) -> u32 { self.cap }
     fn signed(&self, x: i32) -> bool { true }
     fn bad_closure(&self, p: Ptr) -> bool { self.entries.iter().position(|&q| q == q) == None }
-    fn tuple_let(&self) -> u32 { let (a, b) = (1, 2); a }
+    fn tuple_let(&self) -> u32 { let ((a, b), c) = ((1, 2), 3); a }
 }
 "#;
 
@@ -738,7 +738,6 @@ fn slot_map_rejections() {
     sm_rejected("foreign_call", "outside the supported subset: function call `helper(self.len)`");
     sm_rejected("unknown_assoc", "call of `Key::from_raw`, which is neither translated earlier in this run nor given by --prim");
     sm_rejected("called_too_early", "neither translated earlier");
-    sm_rejected("mod_by_var", "`%` by something that is not a non-zero literal");
     sm_rejected("borrow_of_param", "`&mut`");
     sm_rejected("two_effects", "second effect in one statement");
     sm_rejected("effect_order", "reads `self` elsewhere too (evaluation order)");
@@ -1535,4 +1534,186 @@ fn access_rejections() {
     ac_rejected("vec_repeat", "`vec!` (only `vec![a, b, …]`)");
     ac_rejected("fold_with_break", "outside the supported subset");
     ac_rejected("unknown_adaptor", "method call used as a value");
+}
+
+// ------------------------------------------------------------------------------------------------ bit-set shaped code
+
+const BS: &str = r#"
+pub(crate) struct BS<T = usize> { blocks: Vec<Block>, _marker: PhantomData<T> }
+type Block = usize;
+const BITS: usize = Block::BITS as usize;
+impl<T> BS<T> {
+    pub(crate) const fn new() -> Self { Self { blocks: vec![], _marker: PhantomData } }
+    pub(crate) fn clear(&mut self) { self.blocks.clear(); }
+    fn grow_to_block(&mut self, block_idx: usize) -> &mut Block {
+        if block_idx >= self.blocks.len() {
+            self.blocks.resize(block_idx + 1, 0);
+        }
+        unsafe { self.blocks.get_unchecked_mut(block_idx) }
+    }
+    pub(crate) fn is_disjoint(&self, other: &Self) -> bool {
+        self.blocks.iter().zip(other.blocks.iter()).all(|(a, b)| a & b == 0)
+    }
+    pub(crate) fn len(&self) -> usize { self.blocks.iter().map(|block| block.count_ones() as usize).sum() }
+    fn bad_borrow(&mut self, i: usize) -> &mut Block { let x = 0; self.blocks.get_mut(i).unwrap() }
+    fn int_and(&self, a: u32, b: u32) -> u32 { a & b }
+    fn int_shift(&self, a: u32) -> u32 { a << 1 }
+    fn bits_less(&self, a: Block, b: Block) -> bool { a < b }
+}
+impl<T: SparseIndex> BS<T> {
+    pub(crate) fn insert(&mut self, value: T) -> bool {
+        let idx = value.index();
+        let (block, bit) = div_rem(idx, BITS);
+        let block = self.grow_to_block(block);
+        let newly_inserted = *block & (1 << bit) == 0;
+        *block |= 1 << bit;
+        newly_inserted
+    }
+    pub(crate) fn remove(&mut self, value: T) -> bool {
+        let idx = value.index();
+        let (block, bit) = div_rem(idx, BITS);
+        if let Some(block) = self.blocks.get_mut(block) {
+            let removed = *block & (1 << bit) != 0;
+            *block &= !(1 << bit);
+            removed
+        } else {
+            false
+        }
+    }
+    pub(crate) fn contains(&self, value: T) -> bool {
+        let idx = value.index();
+        let (block, bit) = div_rem(idx, BITS);
+        self.blocks.get(block).map_or(false, |&block| (block >> bit) & 1 == 1)
+    }
+}
+impl<T> BitOrAssign<&Self> for BS<T> {
+    fn bitor_assign(&mut self, rhs: &Self) {
+        if self.blocks.len() < rhs.blocks.len() {
+            self.blocks.resize(rhs.blocks.len(), 0);
+        }
+        for (a, b) in self.blocks.iter_mut().zip(rhs.blocks.iter()) {
+            *a |= *b;
+        }
+    }
+}
+impl<'a, T: SparseIndex> IntoIterator for &'a BS<T> {
+    type Item = T;
+    type IntoIter = Iter<'a, T>;
+    fn into_iter(self) -> Self::IntoIter { self.iter() }
+}
+fn div_rem(a: usize, b: usize) -> (usize, usize) { (a / b, a % b) }
+"#;
+
+fn bs_opts(fns: &[&str]) -> Options {
+    let mut all: Vec<String> = vec!["::div_rem".into(), "grow_to_block".into()];
+    all.extend(fns.iter().filter(|f| **f != "grow_to_block" && **f != "::div_rem").map(|s| s.to_string()));
+    let p = |a: &str, b: &str| (a.to_string(), b.to_string());
+    Options {
+        impl_type: "BS".into(),
+        fns: all,
+        type_map: vec![p("BS", "BS"), p("T", "Nat")],
+        bits: vec![("Block".into(), 64)],
+        prims: vec![p("T::index(self) -> usize", "_"), p("::BITS: usize", "64")],
+        source_label: "bs.rs".into(),
+        ..Default::default()
+    }
+}
+
+fn bs_ok(f: &str) -> String {
+    let out = translate(BS, &bs_opts(&[f])).unwrap_or_else(|e| panic!("{f}: {e}"));
+    body_of(&out, f.trim_start_matches("::"))
+}
+
+fn bs_rejected(f: &str, needle: &str) {
+    match translate(BS, &bs_opts(&[f])) {
+        Ok(o) => panic!("{f} was translated:\n{o}"),
+        Err(e) => assert!(e.0.contains(needle), "{f}: message `{}` does not mention `{needle}`", e.0),
+    }
+}
+
+#[test]
+fn free_function_tuple_let_and_returned_borrow() {
+    assert_eq!(bs_ok("::div_rem"), "def div_rem (a : Nat) (b : Nat) : Nat × Nat :=\n  (a / b, a % b)");
+    assert_eq!(
+        bs_ok("grow_to_block"),
+        "def grow_to_block (self : BS) (block_idx : Nat) : BS × Nat :=
+  let self :=
+    if block_idx ≥ (vecLen self.blocks) then
+      { self with blocks := vecResize self.blocks (block_idx + 1) 0 }
+    else self
+  (self, block_idx)"
+    );
+    assert_eq!(
+        bs_ok("insert"),
+        "def insert (self : BS) (value : Nat) : BS × Bool :=
+  let idx := value
+  let (block, bit) := div_rem idx 64
+  let (r1, q1) := grow_to_block self block
+  let self := r1
+  let block := optUnwrap (vecGet self.blocks q1)
+  let newly_inserted := decide ((block &&& (1#64 <<< bit)) = 0#64)
+  let block := block ||| (1#64 <<< bit)
+  let self := { self with blocks := vecSet self.blocks q1 block }
+  (self, newly_inserted)"
+    );
+    let out = translate(BS, &bs_opts(&["insert"])).unwrap();
+    assert!(out.contains("fn grow_to_block returns `&mut Block`, a mutable borrow of an element of a Vec of `self`"), "{out}");
+    assert!(out.contains("`a / b` (division by zero panics in Rust; here it is 0)"), "{out}");
+    assert!(out.contains("`a % b` (remainder by zero panics in Rust; here it is the dividend)"), "{out}");
+    assert!(out.contains("free functions: div_rem; `impl BS`: grow_to_block, insert"), "{out}");
+}
+
+#[test]
+fn blocks_of_bits_and_their_operations() {
+    assert_eq!(
+        bs_ok("remove"),
+        "def remove (self : BS) (value : Nat) : BS × Bool :=
+  let idx := value
+  let (block, bit) := div_rem idx 64
+  let at1 := block
+  match vecGet self.blocks at1 with
+  | some block =>
+    let removed := decide ((block &&& (1#64 <<< bit)) ≠ 0#64)
+    let block := block &&& (~~~(1#64 <<< bit))
+    let self := { self with blocks := vecSet self.blocks at1 block }
+    (self, removed)
+  | none =>
+    (self, false)"
+    );
+    assert_eq!(
+        bs_ok("contains"),
+        "def contains (self : BS) (value : Nat) : Bool :=
+  let idx := value
+  let (block, bit) := div_rem idx 64
+  Option.elim (vecGet self.blocks block) false (fun block => decide (((block >>> bit) &&& 1#64) = 1#64))"
+    );
+    assert_eq!(bs_ok("is_disjoint"), "def is_disjoint (self : BS) (other : BS) : Bool :=\n  List.all (List.zip self.blocks other.blocks) (fun (a, b) => decide ((a &&& b) = 0#64))");
+    assert_eq!(bs_ok("len"), "def len (self : BS) : Nat :=\n  List.sum (List.map (fun block => (BitVec.cpop block).toNat) self.blocks)");
+    assert_eq!(bs_ok("new"), "def new : BS :=\n  ({ blocks := [] } : BS)");
+    assert_eq!(bs_ok("clear"), "def clear (self : BS) : BS :=\n  { self with blocks := [] }");
+}
+
+#[test]
+fn method_of_a_trait_impl_and_zip_of_mutable_elements() {
+    assert_eq!(
+        bs_ok("bitor_assign"),
+        "def bitor_assign (self : BS) (rhs : BS) : BS :=
+  let self :=
+    if (vecLen self.blocks) < (vecLen rhs.blocks) then
+      { self with blocks := vecResize self.blocks (vecLen rhs.blocks) 0 }
+    else self
+  let m1 :=
+    vecZipMut (fun a b =>
+        a ||| b) self.blocks rhs.blocks
+  { self with blocks := m1 }"
+    );
+}
+
+#[test]
+fn bit_set_rejections() {
+    bs_rejected("bad_borrow", "returned mutable borrow (only `self.v.get_unchecked_mut(i)`)");
+    bs_rejected("int_and", "bitwise operation on something that is not a block of bits");
+    bs_rejected("int_shift", "shift of something that is not a block of bits");
+    bs_rejected("bits_less", "comparison");
+    bs_rejected("into_iter", "function `BS::into_iter` not found");
 }
